@@ -10,6 +10,7 @@ NOTE = ("contracts (//@ comments in zz_contracts*_verif.go, build tag verif) on 
         "Clauses the contracts do not decide are listed under coverage.not_decided in the evidence.")
 TECH = "contract-based deductive verification (own WP/symbolic-execution VC generator over go/ssa + SMT: z3, cvc5)"
 CLAIMS = {
+ "C03": "injected data: per-function contracts over an abstract reflect (kind, integer / float64 / string / bool payload, field / element / pointee navigation): name resolution injected-first for reads, writes and calls (one- and two-level paths); field and pointer-scalar writes make exactly ONE store on the resolved target with the value converted across the integer / unsigned / float classes whenever representable; container reads yield the element or the zero value of the element type, container writes coerce key and value and make one store; arguments are evaluated once, in order, coerced to the declared parameter kinds and passed in one call whose first result is returned; host memory itself is outside the model (stores are monitored, not interpreted)",
  "C01": "expression evaluation: per-node contracts on the real Expression / MathExpression / ExpressionAtom / Constant Evaluate methods and core.Add/Sub/Mul/Div/compareIntegers in 64-bit bit-vector + IEEE float64 semantics: operand order, kind dispatch (wrapping int64/uint64, float promotion, string concatenation), exact integer comparison over the 65-bit extension, float64 comparison when a float is involved, lexicographic strings, boolean logic and negation, ill-typed operations and zero divisors are errors; the tree-level statement follows by structural induction (not mechanised); precedence/associativity (grammar + listener) and @-constants are NOT decided",
  "C02": "statement semantics: ghost monitors on the real Statements/If/Else/For/ForRange/Break/Continue/Return/Assignment/dispatcher Evaluate methods (in-order, first-true-branch, cond-before-iteration, step-after-continue, each key once, innermost-loop sentinels, rhs-before-write, no write on error); expression values are trusted (C01)",
  "C04": "sort model: loop contract + ghost monitor (k-th Execute call is on S[k], nothing after a failure in stop mode, error iff some rule failed) on the real SSA of the 5 sorted methods, discharged by SMT for all rule counts / failing subsets / both flag values",
@@ -31,7 +32,6 @@ CLAIMS = {
  "C20": "error positions: the recovering closures of Assignment and the three call nodes cite the node's LineNum/SourceCode (fmt model), call errors are wrapped with the cited line, and nothing else is changed on the error path; expression-level citations and the listener's line bookkeeping are not decided here",
 }
 NA = {
- "C03": "reflect-based accessors (core.GetStructAttributeValue/SetAttributeValue/GetWantedValue, MapVar, DataContext.Exec*) are `trusted` stubs; only name resolution order and call-once monitors are proved, which does not decide the faithful-read/write/convert statement of C03",
 }
 def main():
     man = json.load(open(os.path.join(V, "MANIFEST.json")))
